@@ -9,6 +9,8 @@ if os.path.exists(rp):
 rows = []
 for d in sorted(glob.glob(os.path.join(ROOT, "seeded", "*/"))):
     n = os.path.basename(d.rstrip("/"))
+    if not os.path.exists(os.path.join(d, "meta.json")):
+        continue   # seeded/prompts and the like
     m = json.load(open(os.path.join(d, "meta.json")))
     what = m.get("summary") or m.get("fix_subject") or ""
     what = re.sub(r"\s+", " ", what)[:170]
